@@ -372,6 +372,7 @@ theorem sim (t : Tree) : ∀ (x : Ctx) (s : ISt) (S : St), safe t = true → R s
   | put k v =>
     intro x s S _ hR _
     simp only [im, sp]
+    rw [hR.1]
     split
     · refine ⟨_, rfl, ⟨?_, hR.2.1, hR.2.2⟩, rfl, List.prefix_refl _, id⟩
       simp only [ISt.view] at *
@@ -380,6 +381,7 @@ theorem sim (t : Tree) : ∀ (x : Ctx) (s : ISt) (S : St), safe t = true → R s
   | del k =>
     intro x s S _ hR _
     simp only [im, sp]
+    rw [hR.1]
     split
     · refine ⟨_, rfl, ⟨?_, hR.2.1, hR.2.2⟩, rfl, List.prefix_refl _, id⟩
       simp only [ISt.view] at *
@@ -396,9 +398,9 @@ theorem sim (t : Tree) : ∀ (x : Ctx) (s : ISt) (S : St), safe t = true → R s
     intro x s S hs hR hp
     simp only [safe] at hs
     simp only [im, sp]
+    rw [hR.1]
     split
-    · rw [hR.1]
-      split
+    · split
       · exact ih x s S hs hR (by simpa [callFree] using hp)
       · exact ⟨S, rfl, hR, rfl, List.prefix_refl _, id⟩
     · exact Or.inl ⟨S, rfl⟩
@@ -427,6 +429,7 @@ theorem sim (t : Tree) : ∀ (x : Ctx) (s : ISt) (S : St), safe t = true → R s
       · exact h
       · simp [callFree] at h
     simp only [im, sp]
+    rw [hR.1]
     split
     · -- flags allow the call
       generalize hw : (x.inTry && (x.f.and fl).mut) = wrapped
@@ -610,6 +613,8 @@ theorem sim (t : Tree) : ∀ (x : Ctx) (s : ISt) (S : St), safe t = true → R s
           rw [u3, hev0]; exact List.prefix_append _ _
         | some to =>
           simp only
+          split
+          · exact Or.inl ⟨_, rfl⟩
           have hb := ih ⟨to, x.f.and fl, false, x.h⟩ { s0 with top := out.ws ++ s0.top, ev := s0.ev ++ out.evs }
             { S with σ := out.ws ++ S.σ, ev := S.ev ++ out.evs } hs hR1 (Or.inl hexc0)
           simp only at hb
